@@ -23,6 +23,10 @@ FamB == {[fmt |-> "pem", chan |-> c, inputs |-> <<it>>, sel |-> s, cfg |-> g, mo
 FamC == {[fmt |-> "pem", chan |-> "file", inputs |-> <<a, b>>, sel |-> s, cfg |-> "none", mode |-> m] :
             a \in {OneOK, CrlOK}, b \in {OneOK, CrlOK}, s \in {"none", "incSources"}, m \in Modes}
    \cup {[fmt |-> "pem", chan |-> "file", inputs |-> <<OneOK, CrlOK, OneOK>>, sel |-> "none", cfg |-> "none", mode |-> m] : m \in Modes}
-MCScenarios == FamA \cup FamB \cup FamC
+\* family D: a failing input after a good one under a narrow selection (small reports), every output mode
+BadSecond == {[obj |-> "cert", enc |-> "pem", corrupt |-> c, suffix |-> "none"] : c \in {"badarmor", "truncated", "empty"}}
+FamD == {[fmt |-> "pem", chan |-> "file", inputs |-> <<OneOK, b>>, sel |-> s, cfg |-> "none", mode |-> m] : b \in BadSecond, s \in {"incNames", "nameFilter"}, m \in Modes}
+   \cup {[fmt |-> "pem", chan |-> "file", inputs |-> <<OneOK, OneOK, b>>, sel |-> "incNames", cfg |-> "none", mode |-> "json"] : b \in BadSecond}
+MCScenarios == FamA \cup FamB \cup FamC \cup FamD
 Export == pc = "exited" => PrintT(ToJson([scn |-> scn, printed |-> printed, exit |-> exit]))
 =============================================================================
